@@ -135,7 +135,7 @@ impl Property for C10 {
         "exploration"
     }
     fn rule(&self) -> &'static str {
-        "A scenario = a base list of records that are pairwise distinct by construction on the compared part (whole records carrying a unique id, or --select .g [--select .h] with the selected members drawn from a pool of 76 pairwise distinct abstract values (incl. values that differ only in where a bracket sits, and neighbouring doubles) or absent) and an at-least-once transport applied by the harness: every record may be redelivered later any number of times, each time in a fresh spelling that denotes the same value (whitespace, escape spelling, numerically identical number spellings for |n| < 2^53 or non-integral decimals; no -0, member order never permuted), while unselected fields may change; several hasher seeds per scenario through hook H1. Variants: a lossy --filter upstream, --skip/--take/--sort-by downstream, both selections under one title, rows made distinct by &index, the whole stream redelivered as a file argument named 2..3 times (hook H2), an aborted --unique run in the same process before the scenario. Oracle: stdout(--unique, faulted stream) = stdout(no --unique, the sub-stream of first deliveries with the same spellings) (exactly-once); the pairs [x, y] built from two deliveries go through --select (= #0 #1): true exactly for harness-known redeliveries (eq-agrees); identical stdout under every hasher seed (seed-free). evaluations = jawk executions; non-trivial = at least one redelivery was injected; distinct = distinct abstract traces."
+        "A scenario = a base list of records that are pairwise distinct by construction on the compared part (whole records carrying a unique id, or --select .g [--select .h] with the selected members drawn from a pool of 76 pairwise distinct abstract values (incl. values that differ only in where a bracket sits, and neighbouring doubles) or absent) and an at-least-once transport applied by the harness: every record may be redelivered later any number of times, each time in a fresh spelling that denotes the same value (whitespace, escape spelling, numerically identical number spellings for |n| < 2^53 or non-integral decimals; no -0, member order never permuted), while unselected fields may change; several hasher seeds per scenario through hook H1. Variants: a lossy --filter upstream, --skip/--take/--sort-by downstream, both selections under one title, rows made distinct by &index, the whole stream redelivered as a file argument named 2..3 times (hook H2), an aborted --unique run in the same process before the scenario. Oracle: stdout(--unique, faulted stream) = stdout(no --unique, the sub-stream of first deliveries with the same spellings) (exactly-once); the pairs [x, y] built from two deliveries go through --select (= #0 #1): true exactly for harness-known redeliveries (eq-agrees); identical stdout under every hasher seed (seed-free). evaluations = jawk executions; non-trivial = at least one redelivery was injected; distinct = distinct abstract traces. Round 7: one scenario in eight is a long history of 34..46 mostly distinct records whose redeliveries follow the first delivery closely; one in eight delivers the stream in 2..3 parts, each a file argument or the only file of a directory argument (hook H2)."
     }
     fn assumptions(&self) -> Vec<String> {
         vec![
